@@ -97,6 +97,23 @@ func genQueryStmt(r *Rng, idx int, bad bool) qstmt {
 	}
 }
 
+// cfg: configuration directory; queries: directory of the query files (both relative to the project root);
+// ref: how the configuration refers to it; printed: the name a diagnostic must use once the project root is stripped
+type c17Layout struct{ cfg, queries, ref, printed string }
+
+var c17Layouts = []c17Layout{
+	{"", "q", "q", "q"},
+	{"db", "db/q", "q", "q"},
+	{"db", "db/db", "db", "db"},
+	{"db", "db_queries", "../db_queries", "db_queries"},
+	{"sql", "sql-queries", "../sql-queries", "sql-queries"},
+	{"conf", "confq", "../confq", "confq"},
+	{"conf", "other/queries", "../other/queries", "other/queries"},
+	{"", ".q", ".q", ".q"},
+	{"a/b", "a/bq", "../bq", "a/bq"},
+	{"a/b", "a/b/a/b", "a/b", "a/b"},
+}
+
 func runC17(r *Rng, n int, tier string) {
 	fixed := []struct {
 		s string
@@ -119,11 +136,23 @@ func runC17(r *Rng, n int, tier string) {
 		emit(lineNumberCase(fmt.Sprintf("ln-%d", i), s, h, tags))
 	}
 	// end to end: query files with k statements, any subset in error
-	ne := n / 2
+	ne := n/2 + len(c17Layouts)
 	schema := "CREATE TABLE authors (id bigint NOT NULL, name text NOT NULL);\n"
 	for i := 0; i < ne; i++ {
 		nfiles := 1 + r.Intn(2)
-		files := map[string]string{"schema.sql": schema}
+		// where the configuration and the query files live, relative to the project root: the printed name is
+		// relative to the configuration directory when the file is below it, the full path otherwise
+		lay := c17Layouts[r.Intn(len(c17Layouts))]
+		if i < len(c17Layouts) {
+			lay = c17Layouts[i] // every layout once, with an offending statement, whatever the seed
+		} else if i%2 == 0 {
+			lay = c17Layouts[0]
+		}
+		cfgPrefix := ""
+		if lay.cfg != "" {
+			cfgPrefix = lay.cfg + "/"
+		}
+		files := map[string]string{cfgPrefix + "schema.sql": schema}
 		var order []string
 		type expect struct {
 			file     string
@@ -135,14 +164,14 @@ func runC17(r *Rng, n int, tier string) {
 		qi := 0
 		anyBad := false
 		for f := 0; f < nfiles; f++ {
-			fname := fmt.Sprintf("q/%c.sql", 'a'+f)
+			fname := fmt.Sprintf("%s/%c.sql", lay.queries, 'a'+f)
 			order = append(order, fname)
 			k := 1 + r.Intn(4)
 			var body strings.Builder
 			var sts []qstmt
 			for j := 0; j < k; j++ {
 				qi++
-				st := genQueryStmt(r, qi, r.Chance(45))
+				st := genQueryStmt(r, qi, r.Chance(45) || (i < len(c17Layouts) && j == 0))
 				sts = append(sts, st)
 				body.WriteString(st.text)
 			}
@@ -151,6 +180,9 @@ func runC17(r *Rng, n int, tier string) {
 			}
 			src := body.String()
 			files[fname] = src
+			if lay.printed != lay.queries {
+				fname = fmt.Sprintf("%s/%c.sql", lay.printed, 'a'+f) // what a diagnostic calls it
+			}
 			spans, err := pgSpans(src)
 			if err != nil || len(spans) != len(sts) {
 				continue
@@ -173,8 +205,9 @@ func runC17(r *Rng, n int, tier string) {
 				tags = append(tags, "multibyte")
 			}
 		}
-		files["sqlc.json"] = `{"version":"1","packages":[{"path":"db","engine":"postgresql","schema":"schema.sql","queries":"q"}]}`
-		res := generate(files)
+		files[cfgPrefix+"sqlc.json"] = fmt.Sprintf(`{"version":"1","packages":[{"path":"out","engine":"postgresql","schema":"schema.sql","queries":%q}]}`, lay.ref)
+		res := generateIn(files, lay.cfg)
+		tags = append(tags, "layout:"+lay.cfg+"|"+lay.queries)
 		var got [][3]string
 		for _, l := range strings.Split(res.Stderr, "\n") {
 			if m := diagRe.FindStringSubmatch(l); m != nil {
